@@ -94,6 +94,14 @@ CHECKS = {
             'axes). Every Exception subclass of builtins and 35 hand-built hostile sources are covered.',
             'os._exit / native crashes / memory exhaustion are outside an exec-based sandbox; class of exit()/quit()/blocked '
             'features is not asserted; RecursionError line not asserted.', '3/C04'),
+    'C05': ('Hypothesis rule-based state machine over executions with every termination mode (incl. non-Exception '
+            'BaseExceptions, timeouts, hostile student code replacing sys.stdout/time.sleep), each history in its own forked '
+            'process; invariant on stdout/time.sleep/trace function/module table identity, empty patch stacks and a probe run '
+            'after every step',
+            'About 1000 histories of up to 12 steps per quick run (24k thorough); the invariant is read whether the call '
+            'returned or raised.',
+            'State is read after an abandoned thread has been joined (the race is C14); module baseline taken after a warm-up '
+            'of benign modes.', '3/C05'),
 }
 
 NOT_YET = {}
